@@ -20,6 +20,7 @@ import (
 	"github.com/nspcc-dev/neo-go/pkg/core/storage"
 	"github.com/nspcc-dev/neo-go/pkg/core/transaction"
 	"github.com/nspcc-dev/neo-go/pkg/crypto/keys"
+	"github.com/nspcc-dev/neo-go/pkg/neorpc/result"
 	"github.com/nspcc-dev/neo-go/pkg/neotest"
 	"github.com/nspcc-dev/neo-go/pkg/smartcontract"
 	"github.com/nspcc-dev/neo-go/pkg/smartcontract/callflag"
@@ -599,6 +600,9 @@ func (r ReadResult) Top() stackitem.Item {
 type ReadOpts struct {
 	TS      uint64 // timestamp of the synthetic block; 0 = virtual clock
 	Signers []SignerSpec
+	// IterAsRPC leaves iterators as Interop items holding a result.Iterator with inlined values
+	// (what an RPC server without sessions returns) instead of expanding them into arrays.
+	IterAsRPC bool
 }
 
 // Read test-invokes contract.method in a synthetic next block at the virtual clock.
@@ -662,8 +666,17 @@ func (w *World) ReadScript(o ReadOpts, script []byte) ReadResult {
 		return res
 	}
 	st := ic.VM.Estack().ToArray()
+	wasIterator := make([]bool, len(st))
+	for i := range st {
+		if ip, ok := st[i].(*stackitem.Interop); ok {
+			_, wasIterator[i] = ip.Value().(*istorage.Iterator)
+		}
+	}
 	for i := range st {
 		st[i] = expandIterators(st[i])
+		if arr, ok := st[i].(*stackitem.Array); ok && o.IterAsRPC && wasIterator[i] {
+			st[i] = stackitem.NewInterop(result.Iterator{Values: arr.Value().([]stackitem.Item)})
+		}
 	}
 	res.Stack = st
 	return res
